@@ -98,6 +98,12 @@ func (idx *LSHIndex) computeBandKeys(sig *MinHashSignature) []string {
 	if b <= 0 {
 		b = 32
 	}
+	// Fewer hashes than rows per band would leave no band at all (and no
+	// candidate, not even for identical signatures): use one band over the
+	// whole signature instead.
+	if total > 0 && r > total {
+		r = total
+	}
 	maxBands := total / r
 	if b > maxBands {
 		b = maxBands
